@@ -18,6 +18,7 @@
 //	  p<i>      ping child i (the handler bumps the child's state counter)
 //	  r<i>      P.Reinstate(child i)
 //	  a<i>      age the last fault of child i (in-package accessor; window certainly elapsed)
+//	  F<i><k>   the next k PreStart calls of child i fail (k one digit)
 //
 // After every op the harness waits for quiescence by CONDITIONS (never by sleeping a fixed time):
 // child turn over -> supervision queue drained (a barrier actor goes through the same FIFO queue)
@@ -93,11 +94,11 @@ func spin(what string, cond func() bool) {
 
 type child struct {
 	pre, post, handled atomic.Int64
+	failNext           atomic.Int64
 }
 
 func (c *child) PreStart(*actor.Context) error {
 	n := c.pre.Add(1)
-	c.handled.Store(0) // fresh state
 	if n > 1 {
 		// a restart of a RUNNING actor shuts it down first, which sends Terminated to the
 		// death watch; the death watch then deletes the tree node asynchronously while the
@@ -106,6 +107,11 @@ func (c *child) PreStart(*actor.Context) error {
 		// the usual order so the check cannot flake on it.
 		spin("death watch idle in PreStart", func() bool { return actor.VerifC07Idle(deathWatch) })
 	}
+	if c.failNext.Load() > 0 {
+		c.failNext.Add(-1)
+		return errors.New("scripted PreStart failure")
+	}
+	c.handled.Store(0) // fresh state
 	return nil
 }
 
@@ -480,6 +486,11 @@ func handle(line string) string {
 			}
 		case 'a':
 			actor.VerifC07Age(c)
+		case 'F':
+			if len(op) != 3 || op[2] < '0' || op[2] > '9' {
+				return "bad-case"
+			}
+			f.ca[i].failNext.Store(int64(op[2] - '0'))
 		default:
 			return "bad-case"
 		}
